@@ -26,7 +26,7 @@ theorem subEq_simple (kp : Nat → Bool) (gd : Gdef) (pre : List TG) (cur : TG) 
   | gpos21 pairs => exact Spec.Shape.subEq_gpos21 kp gd pre cur post pairs
   | gpos22 cov c1 c2 adj => exact Spec.Shape.subEq_gpos22 kp gd pre cur post cov c1 c2 adj (by simpa [subtableOk] using hok)
   | gpos31 cov recs => exact Spec.Shape.subEq_gpos31 kp gd pre cur post cov recs
-  | gpos41 mc bc m b => exact Spec.Shape.subEq_gpos41 kp gd pre cur post mc bc m b
+  | gpos41 mc bc m b gc => exact Spec.Shape.subEq_gpos41 kp gd pre cur post mc bc m b gc
   | gpos61 mc bc m b => exact Spec.Shape.subEq_gpos61 kp gd pre cur post mc bc m b
   | ctx1 _ _ => simp [Subtable.contextual] at hs
   | ctx2 _ _ _ => simp [Subtable.contextual] at hs
